@@ -12,6 +12,7 @@ import random
 
 from scen import Scn
 import scenario_common as sc
+import mcrapid
 
 POINTS = ["before-arrival", "before-poll", "after-delivery", "after-response", "after-completion"]
 SUBMISSIONS = [("response", "stale:1"), ("error", "stale:1"), ("response", "unknown"), ("response", "current"), ("error", "current"),
@@ -100,6 +101,8 @@ def scenarios(ctx):
 
 def run(ctx):
     ctx.level = "model_checking"
+    # E1: the property predicates as invariants of the composite (spec/MC_Rapid.tla)
+    mcrapid.check(ctx, ['StreamOwnerIsReserver', 'OkHasBody'])
     ctx.assumptions += sc.ASSUME
     sc.run_families(ctx, scenarios(ctx), "stale")
     ctx.coverage["exhaustive"] = not ctx.quick
